@@ -2372,7 +2372,14 @@ pub fn handle_fakekey_action<'a, const C: usize, const R: usize, T>(
             layout.event(Event::Release(x, y));
         }
         FakeKeyAction::Toggle => {
-            match states_has_coord(&layout.states, x, y) {
+            // An event of this virtual key that is still queued decides what "pressed" means;
+            // only when nothing is in flight do the processed states tell.
+            let in_flight = layout.queue.iter().rev().find_map(|q| match q.event() {
+                Event::Press(i, j) if (i, j) == (x, y) => Some(true),
+                Event::Release(i, j) if (i, j) == (x, y) => Some(false),
+                _ => None,
+            });
+            match in_flight.unwrap_or_else(|| states_has_coord(&layout.states, x, y)) {
                 true => layout.event(Event::Release(x, y)),
                 false => layout.event(Event::Press(x, y)),
             };
